@@ -190,6 +190,63 @@ int main(int argc, char ** argv)
     (void)S; (void)n;
     engineexport_finalize(); return 0;
     }
+  if(sc=="pairing")
+    { // C02 (bounded stand-in): every directed interface has a mate carrying the opposite flux
+    if(grid)
+      {
+      const char * bcs[2]={"reflecting","periodical"};
+      for(int w=1;w<=4;w++) for(int h=1;h<=4;h++) for(int d=1;d<=3;d++) for(int b=0;b<8;b++)
+        {
+        Sys s=small_system(w,h,d,false,1.0);
+        int r=init_grid(s,"euler","no_sampling","none",{0.0},1.0,0.001,seed,bcs[b&1],bcs[(b>>1)&1],bcs[(b>>2)&1]);
+        if(r) return 3;
+        std::vector<int> & nb=global_grid_algo->mesh_neighbors; std::vector<int> & opp=global_grid_algo->opposed_direction;
+        for(int n=0;n<6;n++) if(opp[opp[n]]!=n || opp[n]==n) { fprintf(stderr,"pairing: opposed_direction is not a fixed-point-free involution\n"); return 7; }
+        for(int i=0;i<w*h*d;i++) for(int n=0;n<6;n++)
+          {
+          int j=nb[i*6+n];
+          if(j==-1) continue;
+          if(j<0 || j>=w*h*d || nb[j*6+opp[n]]!=i)
+            { fprintf(stderr,"pairing: grid %dx%dx%d bc %d: neighbour %d of cell %d is %d whose opposite neighbour is %d\n",w,h,d,b,n,i,j,(j>=0&&j<w*h*d)?nb[j*6+opp[n]]:-2); return 7; }
+          }
+        engineexport_finalize();
+        }
+      return 0;
+      }
+    // multigraphs: path, cycle, star with a self loop, parallel edges, two components, single node with two self loops
+    std::vector<std::vector<std::pair<int,int>>> graphs = {
+      {{0,1},{1,2},{2,3}}, {{0,1},{1,2},{2,0}}, {{0,1},{0,2},{0,3},{0,0}}, {{0,1},{0,1},{1,0},{1,2}}, {{0,1},{2,3},{3,2}}, {{0,0},{0,0}} };
+    for(size_t g=0; g<graphs.size(); g++)
+      {
+      int n=0; for(auto & e : graphs[g]) { n=std::max(n,std::max(e.first,e.second)+1); }
+      int S=2, E=2;
+      std::vector<int> ei, ej; std::vector<double> es, ed, vol(n), state(S*n,1.0); std::vector<int> chst(S*n,0), env(n);
+      for(int i=0;i<n;i++){ vol[i]=1.0+0.37*i; env[i]=i%2; }
+      int k=0; for(auto & e : graphs[g]) { ei.push_back(e.first); ej.push_back(e.second); es.push_back(1.0+0.5*k); ed.push_back(0.7+0.2*k); k++; }
+      std::vector<double> D={1.0,0.0, 0.5,2.0}, kk; std::vector<int> sub, sto; std::vector<double> ts={0.0};
+      int r=engineexport_initialize_graph(n,S,0,E,(int)ei.size(),ei.data(),ej.data(),es.data(),ed.data(),state.data(),chst.data(),env.data(),
+            vol.data(),kk.data(),sub.data(),sto.data(),D.data(),1,ts.data(),"no_sampling",0.25,1.0,0.001,seed,"none","euler");
+      if(r) return 3;
+      SimulationAlgorithmGraphBase * a=global_graph_algo;
+      std::vector<int> cnt(n,0);
+      for(size_t e=0;e<ei.size();e++)
+        {
+        int i=ei[e], j=ej[e];
+        int p=cnt[i]++; int q=cnt[j]++;
+        if(p>=a->mesh_neighbor_n[i] || q>=a->mesh_neighbor_n[j] || a->mesh_neighbor_index[i][p]!=j || a->mesh_neighbor_index[j][q]!=i)
+          { fprintf(stderr,"pairing: graph %zu edge %zu: slots (%d,%d) do not point at each other\n",g,e,p,q); return 7; }
+        for(int sp=0;sp<S;sp++)
+          {
+          double oi=a->mesh_kd_out[i][sp*a->mesh_neighbor_n[i]+p], ii=a->mesh_kd_in[i][sp*a->mesh_neighbor_n[i]+p];
+          double oj=a->mesh_kd_out[j][sp*a->mesh_neighbor_n[j]+q], ij=a->mesh_kd_in[j][sp*a->mesh_neighbor_n[j]+q];
+          if(oi!=ij || ii!=oj) { fprintf(stderr,"pairing: graph %zu edge %zu species %d: out/in constants of the two slots differ (%g,%g / %g,%g)\n",g,e,sp,oi,ii,oj,ij); return 7; }
+          }
+        }
+      for(int i=0;i<n;i++) if(cnt[i]!=a->mesh_neighbor_n[i]) { fprintf(stderr,"pairing: graph %zu node %d has %d slots for %d edge ends\n",g,i,a->mesh_neighbor_n[i],cnt[i]); return 7; }
+      engineexport_finalize();
+      }
+    return 0;
+    }
   if(sc=="init-state-layout")
     { // C14: the state handed to the engine must keep every (cell, species) amount in its own slot, whatever the mode:
       // species 0 lives in cell 1 only, species 1 is absent.  A molecule of species 1, or of species 0 in cell 0,
